@@ -427,6 +427,22 @@ func c01d(c *Ctx) {
 		sl, ok := t.Underlying().(*types.Slice)
 		return ok && typeIs(sl.Elem(), "emitter", "chunk")
 	}
+	// lists that are walked in step stay in step: a chunk made per element of an AST list (one body
+	// chunk per elif) is made for every element — the conditions are later paired with the bodies
+	// by position, so a skipped element shifts every later pair
+	for _, name := range emitterCtors[:3] {
+		fn := c.Fn(name)
+		if fn == nil {
+			continue
+		}
+		for i, a := range allocsOf(fn, "emitter", "chunk") {
+			if loopHeaders(fn)[a.Block()] == nil {
+				continue
+			}
+			w, skip := loopSkip(fn, a)
+			c.Check(!skip, fmt.Sprintf("%s/chunk#%d/every-element", fn.Name(), i), c.W.Pos(a.Pos()), "the per-element chunk is made in every iteration", "the chunk made per list element is not made in every iteration (an iteration can reach "+c.nearPos(w)+" without it): bodies and conditions, which are paired by position afterwards, get out of step")
+		}
+	}
 	fns := append([]string{}, emitterCtors...)
 	fns = append(fns, "emitter.chunk.splitChunkForBranch")
 	for _, name := range fns {
